@@ -2098,14 +2098,38 @@ func manifestAppendRollbackGroup(c *Ctx, rule string) {
 	}
 	truncM := Named("(vfs.File).Truncate")
 	truncs := effectSites(c, fn, func(ci ssa.CallInstruction) bool { return truncM(ci.Common()) }, 2)
+	// the fallible steps that put bytes into the manifest: every call with an error result that is
+	// invoked on, or handed, the manifest file (Write, Sync, an encoder streaming into it), other
+	// than the positioning calls of the roll-back itself
 	var steps []ssa.CallInstruction
-	for _, ci := range Calls(fn, false, Named("(vfs.File).Write", "(io.Writer).Write", "(vfs.File).Sync")) {
-		if onManifest(ci) {
+	AllInstrs(fn, false, func(in ssa.Instruction) {
+		ci, ok := in.(ssa.CallInstruction)
+		if !ok || ErrResult(ci) == nil {
+			return
+		}
+		o := CalleeObj(ci.Common())
+		if o == nil {
+			return
+		}
+		switch o.Name() {
+		case "Seek", "Truncate", "Stat", "Close":
+			return
+		}
+		touches := onManifest(ci)
+		for _, a := range ci.Common().Args {
+			if isFieldLoad(a, "manifest.Manager", "manifest") {
+				touches = true
+			}
+			if mi, isMI := a.(*ssa.MakeInterface); isMI && isFieldLoad(mi.X, "manifest.Manager", "manifest") {
+				touches = true
+			}
+		}
+		if touches {
 			steps = append(steps, ci)
 		}
-	}
-	if len(steps) < 2 {
-		c.Fail(rule, key(fn, "has:manifest-append+sync"), fn.Pos(), len(steps)+1, "expected the manifest Write and Sync in logEditsLocked, found %d call(s)", len(steps))
+	})
+	if len(steps) < 1 {
+		c.Fail(rule, key(fn, "has:manifest-append+sync"), fn.Pos(), len(steps)+1, "no fallible write of the manifest file found in logEditsLocked")
 		return
 	}
 	for i, st := range steps {
